@@ -13,6 +13,7 @@
 mod checks;
 #[cfg(feature = "native")]
 mod isolate;
+mod runner;
 mod util;
 
 use std::io::Write;
@@ -32,6 +33,23 @@ fn main() {
     }
     let id = args[1].clone();
     let cmd = args[2].clone();
+    if id == "probe" {
+        // tsverif probe <file.js> [--gc N] [--path P] [--eval] : print the outcome tuple
+        let src = std::fs::read_to_string(&cmd).expect("read");
+        let mut cfg = runner::RunConfig::default();
+        cfg.gc_threshold = arg_val(&args, "--gc").and_then(|s| s.parse().ok());
+        cfg.module_path = arg_val(&args, "--path");
+        if args.iter().any(|a| a == "--eval") {
+            cfg.entry = runner::Entry::Eval;
+        }
+        if args.iter().any(|a| a == "--prelude") {
+            let full = format!("{}\n{}", checks::PRELUDE, src);
+            println!("{}", runner::run_fresh(&full, &cfg).to_json());
+        } else {
+            println!("{}", runner::run_fresh(&src, &cfg).to_json());
+        }
+        return;
+    }
     let tier = match arg_val(&args, "--tier").as_deref() {
         Some("thorough") => Tier::Thorough,
         _ => Tier::Quick,
